@@ -1,3 +1,62 @@
-// unit io_utils: harnesses for sdk/src/utils/io_utils.rs (included by the cfg(kani) hook at the end of that file)
+// unit io_utils: sdk/src/utils/io_utils.rs (included by the cfg(kani) hook at the end of that file)
+// C10 (resource guards): BoundedVecWriter keeps |inner| <= max_len; read_to_vec refuses to allocate more than is left
 #[allow(unused_imports)]
 use super::*;
+
+
+    // C10: the decompression cap is an invariant of BoundedVecWriter
+    #[kani::proof]
+    #[kani::unwind(3)]
+    fn c10_bounded_writer_invariant() {
+        let max_len: usize = kani::any();
+        kani::assume(max_len <= 1 << 20);
+        let n: usize = kani::any();
+        kani::assume(n <= max_len);
+        let m: usize = kani::any();
+        kani::assume(m <= 1 << 20);
+        let mut w = BoundedVecWriter { inner: vec![0u8; n], max_len };
+        let buf = vec![1u8; m];
+        let r = w.write(&buf);
+        assert!(w.inner.len() <= max_len);
+        match &r {
+            Ok(k) => { assert!(*k == m); assert!(w.inner.len() == n + m); }
+            Err(_) => { assert!(n + m > max_len); assert!(w.inner.len() == n); }
+        }
+        std::mem::forget(r);
+    }
+
+    // C10: read_to_vec never allocates more than what is left in the stream
+    struct Zeros { len: u64, pos: u64 }
+    impl Read for Zeros {
+        fn read(&mut self, buf: &mut [u8]) -> std::io::Result<usize> {
+            let left = self.len - self.pos;
+            let n = if (buf.len() as u64) < left { buf.len() } else { left as usize };
+            self.pos += n as u64;
+            Ok(n)
+        }
+    }
+    impl Seek for Zeros {
+        fn seek(&mut self, p: SeekFrom) -> std::io::Result<u64> {
+            match p {
+                SeekFrom::Start(s) => { self.pos = s; }
+                SeekFrom::End(0) => { self.pos = self.len; }
+                SeekFrom::Current(0) => {}
+                _ => { kani::assume(false); }
+            }
+            Ok(self.pos)
+        }
+    }
+
+    #[kani::proof]
+    #[kani::unwind(3)]
+    fn c10_read_to_vec_guard() {
+        let len: u64 = kani::any();
+        let pos: u64 = kani::any();
+        kani::assume(pos <= len);
+        let want: u64 = kani::any();
+        let mut z = Zeros { len, pos };
+        kani::assume(want > len - pos); // asks for more than is left
+        let r = z.read_to_vec(want);
+        assert!(r.is_err());
+        std::mem::forget(r);
+    }
